@@ -161,6 +161,23 @@ def check_backends(A, rep):
                     n = bad[0]
                     rep.fail("C01.c", norm_key("C01.c", func.qualname, n.stmt, "target"),
                              f"write sink `{n.stmt}` in {func.qualname} is not addressed through the instance's resource key fields", [n.where() + ": " + n.stmt], g.label)
+                # C01.f an error raised by a write sink propagates: no path from its exceptional edge to the normal return
+                # a file object's __exit__ never suppresses the exception it is given
+                file_exits = [x.id for x in live(g) if x.kind == "call_unknown" and x["method"] == "__exit__" and x["args"] and x["args"][0] != Val("const", None)
+                              and x["recv"] is not None and any(y.kind == "call" and y.args[0] == "builtins.open" for y in x["recv"].walk())]
+                for n in writes:
+                    swallowed = None
+                    for (t, l) in g.succ[n.id]:
+                        if l == "e":
+                            pth = g.path(t, [g.exit], avoid=file_exits)
+                            if pth is not None:
+                                swallowed = pth
+                    if swallowed is None:
+                        rep.ok("C01.f", f"C01.f {func.qualname} [{g.label}]: an error raised by `{n.stmt}` propagates to the caller")
+                    else:
+                        rep.fail("C01.f", norm_key("C01.f", func.qualname, n["callee"] or n.stmt),
+                                 f"{func.qualname}: an error raised by the write sink `{n.stmt}` is swallowed - the writer returns normally although the resource was not updated, so the mutator returns with the backend still holding the old content",
+                                 g.witness([n.id] + swallowed), g.label)
     # C01.d total conversion
     tb = {}
     for cls in A.concrete():
